@@ -516,7 +516,7 @@ def main():
         if i in flagged:
             m['property_clauses_violated'] = flagged[i]
         ck.violation({'kind': 'property-fails-on-implementation' if i in flagged else 'model-vs-implementation',
-                      'case': m, 'gallina_case': cases[i][:4000], 'model_disagrees': i in bad,
+                      'case': m, 'gallina_case': cases[i], 'model_disagrees': i in bad,
                       'theorems': 'C12_* (Props/C12.v): the model value at this input is the one the theorems pin',
                       'how_to_replay': 'bin/check C12 --replay <this file>'})
 
@@ -619,6 +619,26 @@ def replay(path):
         s = build(m['shape'])
         print('implementation now:', sorted(GH.NiemeyerHasher(m['len'], m['base']).hash_shape(s)))
     print('gallina case:', (r.get('gallina_case') or '')[:2000])
+    lit = r.get('gallina_case')
+    if lit:
+        import tempfile
+        from lib import COQ, sh
+        os.makedirs(os.path.join(os.path.dirname(COQ), '.run'), exist_ok=True)
+        with tempfile.TemporaryDirectory(dir=os.path.join(os.path.dirname(COQ), '.run')) as d:
+            f = os.path.join(d, 'replay.v')
+            extra = ''
+            if m.get('k') == 'flood' and lit.startswith('KFlood'):
+                extra = ('Definition model_flood (k : fcase) := match k with KFlood base len slon slat table out => '
+                         'match cfg_of_base base with Some c => niemeyer_flood c (Z.to_nat len) (slon, slat) '
+                         '(fun gh => match dfind str_eqb gh table with Some b => b | None => false end) (2 * length table + 8) '
+                         '| None => None end | _ => None end.\n'
+                         f'Eval vm_compute in model_flood ({lit}).\n')
+            open(f, 'w').write('From Coq Require Import QArith String.\nFrom GV Require Import Prelude GeohashM GeohashK FloodM FloodK.\n'
+                               'Open Scope string_scope. Open Scope Z_scope. Open Scope Q_scope.\n'
+                               + extra + f'Eval vm_compute in check ({lit}).\n')
+            rc, out = sh(['coqc', '-Q', os.path.join(COQ, 'theories'), 'GV', f], cwd=d, timeout=300)
+            print('model (flood result as code-point lists, then whether model and recorded implementation answer agree):')
+            print(out[-3000:])
 
 
 if __name__ == '__main__':
